@@ -40,21 +40,31 @@ def isTIL : Reg → Bool
   | .local .. => true
   | _ => false
 
-/-- the `Op::Bind` arm of `compile_expr`, after both operands have been compiled -/
-def combineBind (instrs : List Instr) (left right : Reg) (sc : Scope) : Out CE := do
-  -- a register whose recorded type is still a name gets the type of the right-hand side
-  let (left, sc) ← (match left.getType with
-    | .name s => sc.updateType s right.getType
-    | _ => .ok (left, sc) : Out (Reg × Scope))
+/-- first step of the `Op::Bind` arm: a left register whose recorded type is still a name gets the
+type of the right-hand side (`scope.update_type(&s, &right_type)?`) -/
+def bindTarget (left right : Reg) (sc : Scope) : Out (Reg × Scope) :=
+  match left.getType with
+  | .name s => sc.updateType s right.getType
+  | _ => .ok (left, sc)
+
+/-- second step: the `match (&left, &right)` -/
+def bindEmit (instrs : List Instr) (left right : Reg) (sc : Scope) : Out CE :=
   if right = .none then
     if isRC left then
       match instrs.getLast? with
       | none => unreachableP
-      | some last => if last.res = .none then pure ⟨setLastRes instrs left, left, sc⟩ else .panic
+      | some last => if last.res = .none then .ok ⟨setLastRes instrs left, left, sc⟩ else .panic
     else .err
   else if isRC left || isTIL left then
-    pure ⟨instrs ++ [{ res := left, op := .bind, left := left, right := right }], left, sc⟩
+    .ok ⟨instrs ++ [{ res := left, op := .bind, left := left, right := right }], left, sc⟩
   else .err
+
+/-- the `Op::Bind` arm of `compile_expr`, after both operands have been compiled -/
+def combineBind (instrs : List Instr) (left right : Reg) (sc : Scope) : Out CE :=
+  match bindTarget left right sc with
+  | .ok (left', sc') => bindEmit instrs left' right sc'
+  | .err => .err
+  | .panic => .panic
 
 /-- the `match *o` of `compile_expr`, after both operands have been compiled -/
 def combine (o : Op) (instrs : List Instr) (left right : Reg) (sc : Scope) : Out CE :=
